@@ -73,7 +73,7 @@ r=$?
 if [ "$r" -gt 2 ]; then echo "INFRA: check died with status $r"; r=2; fi
 # --- thorough tier: coverage-guided campaign with the same decoders and oracle (libFuzzer) --------------------
 FT=""
-case "$ID" in C03|C05) FT=stream_case;; C04) FT=ctor_case;; C09) FT=tree_history;; C14) FT=schedule;; esac
+case "$ID" in C03|C05) FT=stream_case;; C04) FT=ctor_case;; C08) FT=alias_vector;; C09) FT=tree_history;; C10) FT=tree_sample;; C14) FT=schedule;; esac
 if [ "$TIER" = thorough ] && [ -n "$FT" ]; then
   export RUSTFLAGS="--cfg rand_distr_verif"
   cp /repo/Cargo.lock "$HERE/harness/fuzz/Cargo.lock" 2>/dev/null
@@ -88,7 +88,7 @@ random.seed(int('$SEED'))
 for i in range(64):
     open('$WORK/corpus/r%d'%i,'wb').write(bytes(random.getrandbits(8) for _ in range(random.choice([8,16,32,64,128,256]))))"
     # 16 parallel libFuzzer jobs over a shared corpus, RUNS executions each (fixed work, seeded)
-    case "$FT" in stream_case) RUNS=2000000; ML=64;; ctor_case) RUNS=2000000; ML=96;; tree_history) RUNS=400000; ML=1024;; schedule) RUNS=100000; ML=1024;; esac
+    case "$FT" in stream_case) RUNS=2000000; ML=64;; ctor_case) RUNS=2000000; ML=96;; tree_history) RUNS=400000; ML=1024;; alias_vector) RUNS=1000000; ML=512;; tree_sample) RUNS=400000; ML=1024;; schedule) RUNS=100000; ML=1024;; esac
     ( cd "$WORK" && cargo +nightly fuzz run --fuzz-dir "$HERE/harness/fuzz" --sanitizer none "$FT" "$WORK/corpus" -- -runs=$RUNS -seed=$((SEED+1)) -max_len=$ML -len_control=0 -artifact_prefix="$WORK/art/" -print_final_stats=1 -jobs=16 -workers=16 >"$WORK/fuzz.log" 2>&1 )
     fr=$?
     cat "$WORK"/fuzz-*.log 2>/dev/null | grep -E "stat::number_of_executed_units" | awk '{s+=$2} END {print "fuzz '"$FT"': executed units (all jobs): " s}'
